@@ -152,7 +152,7 @@ def run_check(pid, tier, seed, plan=None):
         "evaluations": nevents,
         "distinct_nontrivial": len(classes),
         "rule": "design level: exhaustive TLC runs of spec/HgSystem.tla (invariants SemInv, WFInv, Comm, Unit, Assoc, "
-                "ScaleLaws, NullWeights, FillCommutes, BatchSplit, action property FrameOK) on the listed descriptors, "
+                "ScaleLaws, NullWeights, FillCommutes, BatchSplit, ViewsAgree, RoundTrip, for C04/C15 also ParseSound, action property FrameOK) on the listed descriptors, "
                 "pool of 3, bounded fills/ops over each descriptor's critical alphabet; conformance: seeded histories "
                 "over catalogue trees T1-T4 plus behaviours produced by `tlc -simulate` from HgSystem, executed on the "
                 "real library under dyadic affine maps gamma and validated event by event by TLC against "
